@@ -905,6 +905,12 @@ package mcp
 //@   ghost uri := at(locked, req.Params.URI)
 //@   ghost sess := at(locked, req.Session)
 //@   ensures @subscription-recorded result.1 == nil ==> at(unlocked, inDom(s.resourceSubscriptions, uri)) && at(unlocked, inDom(s.resourceSubscriptions[uri], sess))
+// "exactly the subscribed sessions": the application is asked first, and a subscription it refuses is never recorded
+// (the subscription table is only ever reached after the handler accepted).
+//@   track s.opts.SubscribeHandler as ask
+//@   callee s.opts.SubscribeHandler: modifies extern   // application code cannot reach the server's unexported tables
+//@   ensures @the-application-is-asked-at-most-once calls(ask) <= 1 && (result.1 == nil ==> calls(ask) == 1 && callResult(ask, 1, 0) == nil)
+//@   ensures @a-refused-subscription-records-nothing calls(ask) == 1 && callResult(ask, 1, 0) != nil ==> result.1 != nil && s.resourceSubscriptions == old(s.resourceSubscriptions) && (inDom(s.resourceSubscriptions, old(req.Params.URI)) <==> old(inDom(s.resourceSubscriptions, req.Params.URI)))
 //@ func (*Server).unsubscribe [C18]
 //@   requires s != nil && req != nil && req.Params != nil
 //@   modifies *
